@@ -135,6 +135,13 @@ CLAIMS = {
              'date/time/datetime/Decimal converters through the real sqlite3 engine, and a whole write-flush-reload round trip of 21 attribute types on in-memory SQLite.',
         note='datetime.timedelta is stubbed as exact integer arithmetic; Python %d / %06d formatting facts assumed. Floating point (REAL days for SQLite intervals, float attributes) and '
              'the wire formats of other backends are not claimed. Known finding: Decimal kept unrounded in the writing session.'),
+    'C21': dict(
+        text='Proof (symbolic previously-seen and reloaded database values, all paths) on the real Attribute.db_set and Entity._db_set_ of a real loaded object: when a non-volatile '
+             'attribute was read and the reloaded value differs, UnrepeatableReadError is raised and the observed value is not replaced (db_set: nothing at all changes); otherwise '
+             'the new value is installed while the session\'s own unflushed write survives; volatile attributes carry no repeatable-read bit (_initialize_bits_); Attribute.__get__ '
+             'sets the read bit exactly for attributes not yet written. The phantom rule for fully loaded collections is checked under C12.',
+        note='Per-reload contracts only: interleavings with concurrent committed writers (the schedules quantifier) are outside this technique and not claimed. A volatile attribute '
+             'with an unflushed own write at reload time is excluded (not reachable through the API: queries flush first).'),
 }
 
 _NOT_BUILT = 'within reach of the technique per DESIGN.md, check not built yet'
